@@ -390,3 +390,12 @@ func addressablePath(p *Ptr) bool {
 	}
 	return true
 }
+
+// canonPtr rewrites a pointer to an addressable embedded field into a plain
+// pointer to an object of the field's type (same reference).
+func canonPtr(p *Ptr, elem types.Type) *Ptr {
+	if p.Root != "obj" || p.Path == "" || len(addressable) == 0 || !addressablePath(p) {
+		return p
+	}
+	return &Ptr{Root: "obj", Base: elem, Ref: p.Ref, Elem: elem}
+}
